@@ -48,6 +48,48 @@ type input struct {
 	Raw  []byte `json:"raw"`
 	Want []byte `json:"want"`
 	TZ   string `json:"tz,omitempty"`
+	// Pred, when set, is the cell that was decoded immediately before this one
+	// in the same process: the counterexample is the sequence (Pred, this cell).
+	Pred *input `json:"pred,omitempty"`
+	// Plain: the cell (and its predecessor) is decoded by one bare CellBytes
+	// call at offset 0, with nothing decoded in between (sequential walk).
+	Plain bool `json:"plain,omitempty"`
+	// Then, when set, is decoded after this cell and before the text of this
+	// cell is compared: what CellBytes returned must not change afterwards.
+	Then *input `json:"then,omitempty"`
+}
+
+// histDepth is the number of predecessors a sequential-walk counterexample carries.
+const histDepth = 8
+
+// trimChain copies the first depth elements of a predecessor chain.
+func trimChain(p *input, depth int) *input {
+	if p == nil || depth <= 0 {
+		return nil
+	}
+	c := *p
+	c.Pred = trimChain(p.Pred, depth-1)
+	return &c
+}
+
+// checkPlain is one bare CellBytes call on a private copy of raw.
+func checkPlain(raw []byte, typ byte, meta uint16, want []byte) (why string, got []byte) {
+	b := append(append([]byte{}, raw...), util.Post...)
+	defer func() {
+		if e := recover(); e != nil {
+			why = fmt.Sprint("panic: ", e)
+		}
+	}()
+	txt, n, err := replication.CellBytes(b, 0, typ, meta, false)
+	switch {
+	case err != nil:
+		return "error: " + err.Error(), nil
+	case n != len(raw):
+		return fmt.Sprintf("consumed %d bytes, the value has %d", n, len(raw)), txt
+	case !bytes.Equal(txt, want):
+		return fmt.Sprintf("decoded %q, expected %q", util.Clip(txt), util.Clip(want)), txt
+	}
+	return "", txt
 }
 
 // decode calls replication.CellBytes on raw embedded at offset off (0..3)
@@ -107,6 +149,30 @@ func checkBoth(buf *[]byte, raw []byte, typ byte, meta uint16, want []byte) (str
 
 func checkInput(in input) string {
 	var buf []byte
+	if in.Plain && in.Then != nil {
+		_, got := checkPlain(in.Raw, in.Type, in.Meta, in.Want)
+		checkPlain(in.Then.Raw, in.Then.Type, in.Then.Meta, in.Then.Want)
+		if !bytes.Equal(got, in.Want) {
+			return fmt.Sprintf("the text returned for this cell reads %q after the next cell was decoded, expected %q", util.Clip(got), util.Clip(in.Want))
+		}
+		return ""
+	}
+	if in.Plain {
+		// the history, oldest first
+		var hist []*input
+		for p := in.Pred; p != nil; p = p.Pred {
+			hist = append(hist, p)
+		}
+		for i := len(hist) - 1; i >= 0; i-- {
+			checkPlain(hist[i].Raw, hist[i].Type, hist[i].Meta, hist[i].Want)
+		}
+		why, _ := checkPlain(in.Raw, in.Type, in.Meta, in.Want)
+		return why
+	}
+	if in.Pred != nil {
+		// the history: decode the predecessor exactly as the enumeration did
+		checkBoth(&buf, in.Pred.Raw, in.Pred.Type, in.Pred.Meta, in.Pred.Want)
+	}
 	why, _ := checkBoth(&buf, in.Raw, in.Type, in.Meta, in.Want)
 	return why
 }
@@ -127,6 +193,9 @@ type sink struct {
 	r    *chk.Run
 	zone string   // "" in the parent
 	keys sync.Map // key -> *best
+	// pred is the cell decoded just before the current one (set only in the
+	// single-threaded sequential walks; nil elsewhere)
+	pred *input
 }
 
 type best struct {
@@ -176,6 +245,16 @@ func (s *sink) fail(class string, typ byte, meta uint16, c ref.Cell, why string,
 	}
 	in := input{Type: typ, Meta: meta, Raw: append([]byte{}, c.Raw...), Want: append([]byte{}, c.Text...), TZ: s.zone}
 	what := fmt.Sprintf("%s: type %d meta %d raw % x: %s", key, typ, meta, in.Raw, why)
+	if s.pred != nil {
+		pc := *s.pred
+		in.Pred = &pc
+		in.Plain = pc.Plain
+		n := 0
+		for q := &pc; q != nil; q = q.Pred {
+			n++
+		}
+		what += fmt.Sprintf(" (decoded right after type %d meta %d raw % x = %q in the same process; the counterexample carries the last %d cells)", pc.Type, pc.Meta, pc.Raw, pc.Want, n)
+	}
 	if s.zone != "" {
 		what += " (TZ=" + s.zone + ")"
 	}
@@ -184,6 +263,22 @@ func (s *sink) fail(class string, typ byte, meta uint16, c ref.Cell, why string,
 		b.cur.Store(&childViolation{Key: key, What: what, Input: in})
 	}
 	b.mu.Unlock()
+}
+
+// failThen records a counterexample of the form "decode c, decode then, the text of c changed".
+func (s *sink) failThen(class string, typ byte, meta uint16, c ref.Cell, then *input, why string) {
+	key := class
+	if s.zone != "" {
+		key += ":" + s.zone
+	}
+	v, _ := s.keys.LoadOrStore(key, &best{})
+	b := v.(*best)
+	b.n.Add(1)
+	if b.cur.Load() != nil {
+		return
+	}
+	in := input{Type: typ, Meta: meta, Raw: append([]byte{}, c.Raw...), Want: append([]byte{}, c.Text...), TZ: s.zone, Plain: true, Then: then}
+	b.cur.Store(&childViolation{Key: key, What: fmt.Sprintf("%s: type %d meta %d raw % x: %s", key, typ, meta, in.Raw, why), Input: in})
 }
 
 // flush returns the collected counterexamples in key order and forgets them.
@@ -692,6 +787,9 @@ func child(r *chk.Run, zone string) {
 		var got []byte
 		if both {
 			why, got = checkBoth(buf, cell.Raw, ref.TTimestamp, 0, cell.Text)
+			defer func() {
+				s.pred = &input{Type: ref.TTimestamp, Raw: append([]byte{}, cell.Raw...), Want: append([]byte{}, cell.Text...), TZ: zone}
+			}()
 		} else {
 			why, got = checkAt(buf, cell.Raw, int(sec&3), ref.TTimestamp, 0, cell.Text)
 		}
@@ -709,6 +807,9 @@ func child(r *chk.Run, zone string) {
 		var got []byte
 		if both {
 			why, got = checkBoth(buf, cell.Raw, ref.TTimestamp2, uint16(fsp), cell.Text)
+			defer func() {
+				s.pred = &input{Type: ref.TTimestamp2, Meta: uint16(fsp), Raw: append([]byte{}, cell.Raw...), Want: append([]byte{}, cell.Text...), TZ: zone}
+			}()
 		} else {
 			why, got = checkAt(buf, cell.Raw, int(sec&3), ref.TTimestamp2, uint16(fsp), cell.Text)
 		}
@@ -786,6 +887,74 @@ func child(r *chk.Run, zone string) {
 			e -= int64(len(lats) - 1) // the old-format instants are enumerated again by part 3
 		}
 		c.distinct.Add(e)
+	}
+	s.pred = nil
+	// 1b. sequential walks: consecutive boundary instants decoded one right after
+	// the other by bare CellBytes calls (ascending, then descending), so that a
+	// decoder that keeps anything of the previous value (a "same day" cache, a
+	// last-text memo) meets both sides of every UTC-offset change back to back
+	{
+		var e int64
+		walk := func(order []uint32) {
+			for _, variant := range []struct {
+				typ  byte
+				fsp  int
+				frac int
+			}{{ref.TTimestamp, 0, 0}, {ref.TTimestamp2, 0, 0}, {ref.TTimestamp2, 3, 765000}, {ref.TTimestamp2, 6, 1}} {
+				s.pred = nil
+				var prevGot []byte
+				var prevCell ref.Cell
+				for i, sec := range order {
+					var cell ref.Cell
+					micro := variant.frac
+					if sec == 0 {
+						micro = 0
+					}
+					// the fraction alternates so that two cells of one second differ
+					if i%2 == 1 && micro != 0 {
+						micro = micro / 5
+					}
+					if variant.typ == ref.TTimestamp {
+						cell = ref.VTimestampOld(sec, loc)
+					} else {
+						cell = ref.VTimestamp2(variant.fsp, sec, micro, loc)
+					}
+					why, got := checkPlain(cell.Raw, variant.typ, uint16(variant.fsp), cell.Text)
+					e++
+					if why != "" {
+						s.fail(fmt.Sprintf("timestamp-walk:type%d:fsp%d", variant.typ, variant.fsp), variant.typ, uint16(variant.fsp), cell, why, got)
+					} else if prevGot != nil && !bytes.Equal(prevGot, prevCell.Text) {
+						// the text handed out for the previous cell changed when this one was decoded
+						keep := s.pred
+						s.pred = nil
+						then := input{Type: variant.typ, Meta: uint16(variant.fsp), Raw: append([]byte{}, cell.Raw...), Want: append([]byte{}, cell.Text...), TZ: zone, Plain: true}
+						s.failThen(fmt.Sprintf("timestamp-walk:earlier-text-changed:type%d:fsp%d", variant.typ, variant.fsp), variant.typ, uint16(variant.fsp), prevCell, &then,
+							fmt.Sprintf("the text returned for it reads %q after the next cell (raw % x) was decoded", util.Clip(prevGot), cell.Raw))
+						s.pred = keep
+					}
+					if why != "" {
+						got = nil // wrong from the start: not a text to watch
+					}
+					prevGot, prevCell = got, cell
+					s.pred = &input{Type: variant.typ, Meta: uint16(variant.fsp), Raw: append([]byte{}, cell.Raw...), Want: append([]byte{}, cell.Text...), TZ: zone, Plain: true,
+						Pred: trimChain(s.pred, histDepth-1)}
+				}
+			}
+		}
+		walk(lats)
+		rev := make([]uint32, len(lats))
+		for i, v := range lats {
+			rev[len(lats)-1-i] = v
+		}
+		walk(rev)
+		// every instant twice in a row (the second decode must not depend on the first)
+		dbl := make([]uint32, 0, 2*len(lats))
+		for _, v := range lats {
+			dbl = append(dbl, v, v)
+		}
+		walk(dbl)
+		c.evals.Add(e)
+		s.pred = nil
 	}
 	for sec, txt := range anchors[zone] {
 		// the anchors once more against the literal text (not the zone database)
